@@ -172,8 +172,13 @@ def split_iter(src, sep=None, maxsplit=None):
     cur_group = []
     split_count = 0
     for s in src:
-        if maxsplit is not None and split_count >= maxsplit:
-            def sep_func(x): return False
+        if maxsplit is not None and split_count >= maxsplit \
+           and (cur_group or sep is not None):
+            # no splits left: the rest belongs to the last group, as
+            # is (with sep=None, str.split() first skips the separators
+            # leading up to it)
+            cur_group.append(s)
+            continue
         if sep_func(s):
             if sep is None and not cur_group:
                 # If sep is none, str.split() "groups" separators
